@@ -283,11 +283,18 @@ def unit_match_to_date_zh(ctx, T, contract):
                 continue
             ref = refs[len(seen) % len(refs)]
             try:
-                a = dtres.res_str(dp.match_to_date(m, ref))
+                inner = dp.match_to_date(m, ref)
+                a = dtres.res_str(inner)
             except Exception as e:
+                inner = e
                 a = dtres.err_kind(e)
-            lines.append('\t'.join(['dt.m2dzh', dtres.dt_field(ref), cps(y), '-', cps(mo), cps(d), str(cy)]))
+            fields = [dtres.dt_field(ref), cps(y), '-', cps(mo), cps(d), str(cy)]
+            lines.append('\t'.join(['dt.m2dzh'] + fields))
             impl.append(a)
+            meta.append((m.group(), 'date_regex#%d' % i, {'year': y, 'yearchs': ychs, 'month': mo, 'day': d, 'chsYear': cy}, ref))
+            # the entity-level composition the theorems are about (RTV.DtRes.resolveDateZh: match_to_date -> parse -> _date_time_resolution)
+            lines.append('\t'.join(['dt.rdatezh'] + fields))
+            impl.append(dtres.entity_values(T, 'date', inner, 'zh-cn'))
             meta.append((m.group(), 'date_regex#%d' % i, {'year': y, 'yearchs': ychs, 'month': mo, 'day': d, 'chsYear': cy}, ref))
     model = dtres.drive(lines)
     ctx.count('match_to_date(zh)', len(lines))
